@@ -311,6 +311,13 @@ class EvalMixin(object):
                     return const(a ** b)
             except Exception:
                 pass
+        if op == "%" and is_const(l) and isinstance(l[1], str) and r[0] == "tuple" and \
+                all(is_const(x) for x in r[1]):
+            # "text %s" % (c1, c2): formatting with constants folds
+            try:
+                return const(l[1] % tuple(x[1] for x in r[1]))
+            except Exception:
+                pass
         return ("binop", op, l, r)
 
     def ex_BinOp(self, node, state, frame):
